@@ -204,7 +204,24 @@ func ruleC07(w *World, r *Report) {
 		}
 	}
 	// ---- ClientKeeper.UpdateClient
-	k.activeGuardRule("C07.active", pClientKeeper, "Keeper", "UpdateClient", []string{"CheckHeaderAndUpdateState"})
+	k.keeperUpdateRule("C07")
+	r.MinInstances("C07.", 40)
+}
+
+// successPassesCallAny is successPassesCall that also accepts the error being returned
+// through a wrapper on the failure edge (the usual  if err := f(); err != nil { return wrap(err) } ).
+func (k *K) successPassesCallAny(fi *FnInfo, calls []*ssa.Call) (bool, *ssa.Return) {
+	return k.successPassesCall(fi, calls)
+}
+
+// keeperUpdateRule: ClientKeeper.UpdateClient (shared by all client types) verifies the
+// submitted header with an Active client and, on acceptance, always stores exactly the
+// client state and consensus state that CheckHeaderAndUpdateState returned, the latter
+// under (chainName, header.GetHeight()).
+func (k *K) keeperUpdateRule(id string) {
+	w, r := k.w, k.r
+	_ = w
+	k.activeGuardRule(id+".active", pClientKeeper, "Keeper", "UpdateClient", []string{"CheckHeaderAndUpdateState"})
 	if fi := k.method(pClientKeeper, "Keeper", "UpdateClient"); fi != nil {
 		fn := fnShort(fi)
 		chus := callsNamed(fi, "CheckHeaderAndUpdateState")
@@ -215,30 +232,45 @@ func ruleC07(w *World, r *Report) {
 			}
 		}
 		sets = append(sets, returnSites(fi, "")...)
-		k.requireErrNilDominates("C07.active.dom", fi, chus, sets, "CheckHeaderAndUpdateState")
+		k.requireErrNilDominates(id+".active.dom", fi, chus, sets, "CheckHeaderAndUpdateState")
 		for _, c := range callsNamed(fi, "SetClientConsensusState") {
 			a := termsOf(fi, CallArgs(&c.Call))
 			if len(a) >= 4 && len(chus) > 0 {
-				r.Check(a[1] == P(2).String() && a[2] == P(3).String()+".GetHeight()" && a[3] == fi.T.Of(chus[0]).String()+"#1", "C07.store/keeper", "BIND", fn, fi.InstrPos(c),
+				r.Check(a[1] == P(2).String() && a[2] == P(3).String()+".GetHeight()" && a[3] == fi.T.Of(chus[0]).String()+"#1", id+".store/keeper", "BIND", fn, fi.InstrPos(c),
 					"keeper stores the returned consensus state under (chainName, header.GetHeight())", "keeper stores ("+clip(strings.Join(a[1:], ", "))+"); expected (chainName, header.GetHeight(), consensus state returned by CheckHeaderAndUpdateState)")
 			}
 		}
 		for _, c := range callsNamed(fi, "SetClientState") {
 			a := termsOf(fi, CallArgs(&c.Call))
 			if len(a) >= 3 && len(chus) > 0 {
-				r.Check(a[1] == P(2).String() && a[2] == fi.T.Of(chus[0]).String()+"#0", "C07.store/keeper.client", "BIND", fn, fi.InstrPos(c), "keeper stores the returned client state for chainName", "keeper stores ("+clip(strings.Join(a[1:], ", "))+")")
+				r.Check(a[1] == P(2).String() && a[2] == fi.T.Of(chus[0]).String()+"#0", id+".store/keeper.client", "BIND", fn, fi.InstrPos(c), "keeper stores the returned client state for chainName", "keeper stores ("+clip(strings.Join(a[1:], ", "))+")")
 			}
+		}
+		// on acceptance both results are stored: no success path around the two setters
+		for _, nm := range []string{"SetClientConsensusState", "SetClientState"} {
+			cs := callsNamed(fi, nm)
+			isSet := func(in ssa.Instruction) bool {
+				for _, c := range cs {
+					if in == ssa.Instruction(c) {
+						return true
+					}
+				}
+				return false
+			}
+			ok, site, detail := len(cs) > 0, w.Pos(fi.Fn.Pos()), ""
+			for _, rt := range fi.Returns() {
+				if rt.Kind == RetFail {
+					continue
+				}
+				if p := fi.PathAvoiding(rt.Instr, isSet); p != nil {
+					ok, site, detail = false, fi.InstrPos(rt.Instr), " (path "+fi.DescribePath(p)+")"
+				}
+			}
+			r.Check(ok, id+".store/keeper.always."+nm, "MUST-PASS", fn, site, "every accepted update passes "+nm, "an update can be accepted (nil error) without "+nm+detail+": the stored state is not the one the accepted header defines")
 		}
 		for _, c := range chus {
 			a := termsOf(fi, c.Call.Args)
-			r.Check(len(a) >= 4 && a[3] == P(3).String(), "C07.active/header", "BIND", fn, fi.InstrPos(c), "the submitted header is verified", "CheckHeaderAndUpdateState receives "+clip(strings.Join(a, ", ")))
+			r.Check(len(a) >= 4 && a[3] == P(3).String(), id+".active/header", "BIND", fn, fi.InstrPos(c), "the submitted header is verified", "CheckHeaderAndUpdateState receives "+clip(strings.Join(a, ", ")))
 		}
 	}
-	r.MinInstances("C07.", 40)
-}
-
-// successPassesCallAny is successPassesCall that also accepts the error being returned
-// through a wrapper on the failure edge (the usual  if err := f(); err != nil { return wrap(err) } ).
-func (k *K) successPassesCallAny(fi *FnInfo, calls []*ssa.Call) (bool, *ssa.Return) {
-	return k.successPassesCall(fi, calls)
 }
